@@ -361,7 +361,9 @@ func genRecord(t *rapid.T, framing string, big bool) RecSpec {
 	if framing == "rawjson" {
 		switch rapid.IntRange(0, 3).Draw(t, "jkind") {
 		case 0:
-			return RecSpec{Kind: "lit", Lit: engine.Bytes(rapid.SampledFrom([]string{`{}`, `[]`, `{"a":[1,2,{"b":null}]}`, `["x","y"]`, `""`, `"\né"`, `{"jsonrpc":"2.0","id":1,"method":"m"}`, ``, `null`, `[[[[]]]]`}).Draw(t, "lit"))}
+			return RecSpec{Kind: "lit", Lit: engine.Bytes(rapid.SampledFrom([]string{`{}`, `[]`, `{"a":[1,2,{"b":null}]}`, `["x","y"]`, `""`, `"\né"`, `{"jsonrpc":"2.0","id":1,"method":"m"}`, ``, `null`, `[[[[]]]]`,
+				// insignificant white space inside a value is part of the record
+				`{"id": 2}`, `[1, 2 ,3]`, `{ "a" : [ ] }`, "{\n\t\"k\": \"v\"\n}", "[\r\n]"}).Draw(t, "lit"))}
 		default:
 			return RecSpec{Kind: "json", Size: rapid.SampledFrom(sizes).Draw(t, "size"), Seed: rapid.IntRange(0, 9).Draw(t, "seed")}
 		}
@@ -465,6 +467,7 @@ func enumAllCuts(env engine.Env, yield func(Case) bool) {
 		Case{Framing: "rawjson", Records: lits(`"ab"`, ``, `[[]]`)},
 		Case{Framing: "rawjson", Records: lits(`null`, `{}`, `null`)},
 		Case{Framing: "rawjson", Records: lits(`[1,2]`, `{"k":"v"}`)},
+		Case{Framing: "rawjson", Records: lits(`[1, 2]`, `{"k": 1}`)},
 	)
 	cases = append(cases, Case{Framing: "hdr", Records: lits("")})
 	if env.Thorough() {
